@@ -24,6 +24,17 @@ def defaultColors : Colors :=
   | .ok p => p.colors
   | .error _ => ⟨[], [], [], []⟩
 
+/-- The colours the harness process ran with (reported with the op when it runs under a
+    configuration of its own), else the default ones. -/
+def opColors (j : Json) : Colors :=
+  match j.getObjVal? "colors" with
+  | .ok (Json.arr a) =>
+    match a[0]?, a[1]?, a[2]?, a[3]? with
+    | some (Json.str p), some (Json.str e), some (Json.str h), some (Json.str c) =>
+      ⟨p.toList, e.toList, h.toList, c.toList⟩
+    | _, _, _, _ => defaultColors
+  | _ => defaultColors
+
 /-- The superscript runs of one line as digit lists, with "nothing but indentation before it" and
     "nothing after it" flags. -/
 def lineRuns (l : Str) : List (List Nat × Bool × Bool) :=
@@ -76,6 +87,16 @@ partial def numberAfterBroken (label : Str) : Str → Option Nat
       else some (ds.foldl (fun n d => 10 * n + d) 0)
     else numberAfterBroken label cs
 
+/-- "Every line has at most `w` visible characters" on the implementation's output.  Ordinary
+    outputs are measured with the regex cells (`AnsiSpec.linesWithin`, as in the theorems).  For
+    outputs of tens of thousands of characters (the wide documents of C06) the cell scanner of
+    the model is quadratic in the line length, so lines there are measured by what a terminal
+    shows: the characters left after removing the SGR sequences (the output is also required to
+    consist of nothing but printable characters and complete SGR sequences, `safe_output`). -/
+def withinWidth (w : Int) (o : Str) : Bool :=
+  if o.length ≤ 20000 then AnsiSpec.linesWithin w o
+  else (Str.splitNL (Safe.strip o)).all fun l => decide ((l.length : Int) ≤ w)
+
 def renderOp (j : Json) : Except String Res := do
   let impl := (j.getObjVal? "impl").toOption.getD Json.null
   if let .ok _ := impl.getObjVal? "parseerror" then return { model := impl, nontrivial := false }
@@ -83,7 +104,7 @@ def renderOp (j : Json) : Except String Res := do
   let noModel := (j.getObjVal? "nomodel").toOption == some (Json.bool true)
   let widthsA ← arr j "widths"
   let widths ← widthsA.toList.mapM (·.getInt?)
-  let c := defaultColors
+  let c := opColors j
   let (outs, links) ← match media with
     | _ =>
     if noModel then
@@ -121,7 +142,7 @@ def renderOp (j : Json) : Except String Res := do
   let isStrOut := match impl.getObjVal? "out" with | .ok (Json.arr _) => true | _ => false
   let safeOk := implOuts.all Safe.safe
   let neutralOk := implOuts.all Cells.neutralAtBreaks
-  let widthOk := (implOuts.zip widths).all fun (o, w) => w < 1 || AnsiSpec.linesWithin w o
+  let widthOk := (implOuts.zip widths).all fun (o, w) => w < 1 || withinWidth w o
   -- same width ⇒ same text, whatever happened in between
   let sameOk := (implOuts.zip widths).all fun (o, w) =>
     (implOuts.zip widths).all fun (o', w') => w != w' || o == o'
@@ -158,5 +179,67 @@ def renderOp (j : Json) : Except String Res := do
     else []
   pure { model := Json.mkObj [("links", jsl links), ("out", jsl outs)], preds := preds,
          nontrivial := !links.isEmpty || widths.length ≥ 2 }
+
+/-- A JSON array of strings as a list (anything else reads as empty). -/
+def strsOf (v : Json) : List Str :=
+  match v with
+  | Json.arr a => a.toList.map fun x => match x with | Json.str s => s.toList | _ => []
+  | _ => []
+
+/-- op "renderpair": several Markup values alive at once, rendered alternately.  Every value has
+    its own cache (`Markup.M`); the model steps the one addressed and leaves the others alone. -/
+def renderPairOp (j : Json) : Except String Res := do
+  let impl := (j.getObjVal? "impl").toOption.getD Json.null
+  if let .ok _ := impl.getObjVal? "parseerror" then return { model := impl, nontrivial := false }
+  let c := opColors j
+  let docsA ← arr j "docs"
+  let forestsA ← arr j "forests"
+  let scrubbedA ← arr j "scrubbed"
+  let mut rs : Array ((Int → Str) × List Str) := #[]
+  for i in [0:docsA.size] do
+    let media ← (← (docsA[i]?.getD Json.null).getObjVal? "media").getStr?
+    let src : Str := match scrubbedA[i]? with | some (Json.str t) => t.toList | _ => []
+    match media with
+    | "html" | "markdown" =>
+      let fa ← (forestsA[i]?.getD Json.null).getArr?
+      let forest ← fa.toList.mapM toNode
+      rs := rs.push (Markup.htmlR c forest, (Hypertext.renderWithLinks c forest 80).2)
+    | "gemini" =>
+      let lines := Str.splitNL src
+      rs := rs.push (Markup.gemR c lines, (Gemtext.renderWithLinks c lines 80).2)
+    | _ =>
+      rs := rs.push (Markup.plainR c src, (Plaintext.renderWithLinks c src 80).2)
+  let mut ms : Array (Markup.M Unit) := rs.map fun r => Markup.new (fun _ w => r.1 w) ()
+  let seqA ← arr j "seq"
+  let mut outsRev : List Str := []
+  let mut stepsRev : List (Nat × Int) := []
+  for st in seqA do
+    let p ← st.getArr?
+    let k ← (p[0]?.getD Json.null).getNat?
+    let w ← (p[1]?.getD Json.null).getInt?
+    match rs[k]?, ms[k]? with
+    | some r, some m =>
+      let o := Markup.render (fun _ w => r.1 w) m w
+      ms := ms.set! k o.2
+      outsRev := o.1 :: outsRev
+      stepsRev := (k, w) :: stepsRev
+    | _, _ => throw "renderpair: step addresses no document"
+  let outs := outsRev.reverse
+  let steps := stepsRev.reverse
+  -- predicates on the implementation's output
+  let implOuts : List Str := strsOf ((impl.getObjVal? "out").toOption.getD Json.null)
+  let isStrOut := match impl.getObjVal? "out" with | .ok (Json.arr _) => true | _ => false
+  let tagged := implOuts.zip steps
+  let widthOk := tagged.all fun (o, _, w) => w < 1 || withinWidth w o
+  let sameOk := tagged.all fun (o, k, w) => tagged.all fun (o', k', w') => k != k' || w != w' || o == o'
+  let freshOk := match j.getObjVal? "fresh" with
+    | .ok (Json.arr a) => strsOf (Json.arr a) == implOuts
+    | _ => true
+  let preds := if isStrOut then
+      [("safe_output", implOuts.all Safe.safe), ("neutral_at_line_ends", implOuts.all Cells.neutralAtBreaks),
+       ("lines_within_width", widthOk), ("same_width_same_text", sameOk), ("render_is_history_free", freshOk)]
+    else []
+  pure { model := Json.mkObj [("links", Json.arr (rs.map fun r => jsl r.2)), ("out", jsl outs)], preds := preds,
+         nontrivial := steps.length ≥ 2 }
 
 end Ops
